@@ -25,11 +25,18 @@ theorem ex_bind_err {α β} {a : Except Err α} {k : α → Except Err β} {e : 
     (a >>= k) = .error e ↔ a = .error e ∨ ∃ x, a = .ok x ∧ k x = .error e := by
   cases a <;> simp [bind, Except.bind]
 
-@[simp] theorem ex_ok_bind {α β} (x : α) (k : α → Except Err β) : ((Except.ok x : Except Err α) >>= k) = k x := rfl
-@[simp] theorem ex_err_bind {α β} (e : Err) (k : α → Except Err β) :
-    ((Except.error e : Except Err α) >>= k) = .error e := rfl
-@[simp] theorem ex_pure {α} (x : α) : (pure x : Except Err α) = .ok x := rfl
-@[simp] theorem ex_throw {α} (e : Err) : (throw e : Except Err α) = .error e := rfl
+/-- (stated with a hypothesis so that `simp` uses it as a rewrite rule with a proof term: as a `rfl`
+lemma the kernel would have to re-check the step by unfolding, which is slow on these terms) -/
+theorem ex_bind_of_ok {α β} {a : Except Err α} {x : α} (h : a = .ok x) (k : α → Except Err β) :
+    (a >>= k) = k x := by subst h; rfl
+theorem ex_bind_of_err {α β} {a : Except Err α} {e : Err} (h : a = .error e) (k : α → Except Err β) :
+    (a >>= k) = .error e := by subst h; rfl
+theorem ex_ok_bind {α β} (x : α) (k : α → Except Err β) : ((Except.ok x : Except Err α) >>= k) = k x :=
+  ex_bind_of_ok (Eq.refl _) k
+theorem ex_err_bind {α β} (e : Err) (k : α → Except Err β) :
+    ((Except.error e : Except Err α) >>= k) = .error e := ex_bind_of_err (Eq.refl _) k
+theorem ex_pure {α} (x : α) : (pure x : Except Err α) = .ok x := rfl
+theorem ex_throw {α} (e : Err) : (throw e : Except Err α) = .error e := rfl
 
 /-! ### the post-processing of `liftCrypto` -/
 
@@ -246,8 +253,8 @@ theorem and_two_pow' (X k : Nat) : X &&& 2 ^ k = if X.testBit k then 2 ^ k else 
   rw [Nat.testBit_and, Nat.testBit_two_pow]
   by_cases hi : k = i
   · subst hi
-    cases h : X.testBit k <;> simp [Nat.testBit_two_pow]
-  · cases h : X.testBit k <;> simp [hi, Nat.testBit_two_pow]
+    cases h : X.testBit k <;> simp
+  · cases h : X.testBit k <;> simp [hi]
 
 theorem cHasFlag_pow (X k : Nat) : Crypto.Ops.hasFlag X (2 ^ k) = X.testBit k := by
   unfold Crypto.Ops.hasFlag
@@ -263,7 +270,7 @@ theorem iHasFlag_pow (X k : Nat) : hasFlag X (2 ^ k) = X.testBit k := by
   have : (2 : Nat) ^ k ≠ 0 := Nat.pos_iff_ne_zero.1 (Nat.two_pow_pos k)
   cases X.testBit k
   · simp
-  · simpa using this
+  · simp
 
 theorem cNewCostModel_eq (F : Nat) : Crypto.Ops.newCostModel F = hasFlag F Gen.FLAG_NEW_COST_MODEL := by
   unfold Crypto.Ops.newCostModel
